@@ -259,6 +259,13 @@ func (m *Muxer) validate() error {
 	if len(m.frames) == 0 {
 		return ErrNoFrames
 	}
+	// A metadata blob above the readers' limit would be written as a file
+	// nobody can read back.
+	for _, md := range [][]byte{m.iccData, m.exifData, m.xmpData} {
+		if len(md) > maxMetadataSize {
+			return fmt.Errorf("%w: metadata chunk of %d bytes exceeds the %d byte limit", ErrMuxValidation, len(md), maxMetadataSize)
+		}
+	}
 	animated := m.isAnimated()
 	if animated {
 		// Animated: must have at least 1 frame.
